@@ -167,7 +167,8 @@ def judge_irrelevant(rec, table, origin):
     elif R.sub(ob, nb):
         rel = 'result-is-top-type' if R.is_top(nb) else 'result-is-supertype'
     if rel:
-        sh = '%s%s->%s' % (shape(e), '-primitive' if rec.get('etype_prim') else '', shape(r))
+        sh = '%s%s->%s%s' % (shape(e), '-primitive' if rec.get('etype_prim') else '', shape(r),
+                             '+top-argument' if (r[0] == 'i' and any(R.is_top(a[2] if a[0] == 'p' else a) for a in r[2] if a != rm.STAR)) else '')
         out.append(('C09/find_irrelevant_type/%s/%s/%s' % (rel, sh, origin), {'etype': rm.show(e), 'result': rm.show(r)}))
     return out
 
